@@ -20,15 +20,15 @@ type CConfig struct {
 	Relay       int      `json:"relay"`         // >0: another BitXHub (id 1357) with this many validators is registered as relay chain
 	NoFabsimCap bool     `json:"no_fabsim_cap"` // lift the per-run cap on proofs handed to the FabricSim validator (only used by the known-finding replay of the validator-pool wedge)
 	Profile     string   `json:"profile"`
-	Late        bool     `json:"late"`         // every chain has one more service ("sl") that is not registered in the prologue: "register" steps submit it during the run
-	SplitGroups bool     `json:"split_groups"` // one-to-many groups only from services of the first chain, one-to-one traffic only from the others (so that the two reference models never share a transaction id)
-	SamePairs   bool     `json:"same_pairs"`   // also pairs inside one appchain, incl. a service calling itself
-	RoleOps     bool     `json:"role_ops"`     // new governance administrators and the audit-administrator cycle are registered during the run (grant clause of C14)
-	RuleOps     bool     `json:"rule_ops"`     // rule lifecycle: further rules are registered, the master rule is updated through governance (approved or rejected), rules are logged out
-	RefRestart  []int    `json:"ref_restart"`  // profiles with a single replica: it is stopped and reopened after these block indexes
+	Late        bool     `json:"late"`               // every chain has one more service ("sl") that is not registered in the prologue: "register" steps submit it during the run
+	SplitGroups bool     `json:"split_groups"`       // one-to-many groups only from services of the first chain, one-to-one traffic only from the others (so that the two reference models never share a transaction id)
+	SamePairs   bool     `json:"same_pairs"`         // also pairs inside one appchain, incl. a service calling itself
+	RoleOps     bool     `json:"role_ops"`           // new governance administrators and the audit-administrator cycle are registered during the run (grant clause of C14)
+	RuleOps     bool     `json:"rule_ops"`           // rule lifecycle: further rules are registered, the master rule is updated through governance (approved or rejected), rules are logged out
+	RefRestart  []int    `json:"ref_restart"`        // profiles with a single replica: it is stopped and reopened after these block indexes
 	Rejected    bool     `json:"rejected,omitempty"` // before the chains were registered, the outsider applied for the same chain ids and was rejected
-	KV          bool     `json:"kv,omitempty"` // a user WASM contract with storage is deployed and invoked (succeeding, trapping, running out of gas)
-	BigBlocks   bool     `json:"big_blocks"`   // few cuts: most blocks are filled to the sequencer's limit
+	KV          bool     `json:"kv,omitempty"`       // a user WASM contract with storage is deployed and invoked (succeeding, trapping, running out of gas)
+	BigBlocks   bool     `json:"big_blocks"`         // few cuts: most blocks are filled to the sequencer's limit
 }
 
 // CStep is one symbolic workload step. Operands are resolved against the model at execution time
@@ -126,6 +126,25 @@ func Generate(prop string, r *sim.Rand, tier string) *sim.Plan {
 		for i := 1; i < len(cfg.Replicas); i++ {
 			if !cfg.Replicas[i].Reader && r.Chance(0.4) {
 				cfg.Replicas[i].ApiReader = []int{30, 80, 200}[r.Intn(3)]
+			}
+		}
+	default:
+		// API clients poll every node: a quarter of the runs of every other profile have the reader on the judged replica
+		if r.Chance(0.25) {
+			cfg.Replicas[0].ApiReader = []int{30, 80, 200}[r.Intn(3)]
+		}
+	}
+	// replacement of the head block (rollback + re-execution inside the executor): on the judged replica of the IBTP,
+	// timeout, group and lifecycle profiles, on the other replicas of C01
+	switch prop {
+	case "C02", "C04", "C05", "C06", "C16":
+		if r.Chance(0.3) {
+			cfg.Replicas[0].Compete = []int{60, 150, 400}[r.Intn(3)]
+		}
+	case "C01":
+		for i := 1; i < len(cfg.Replicas); i++ {
+			if r.Chance(0.3) {
+				cfg.Replicas[i].Compete = []int{60, 150, 400}[r.Intn(3)]
 			}
 		}
 	}
@@ -611,6 +630,14 @@ func SimplifyConfig(raw json.RawMessage) []json.RawMessage {
 			c.Replicas = append([]Policy(nil), cfg.Replicas...)
 			q := p
 			q.Reader = false
+			c.Replicas[i] = q
+			out = append(out, sim.MustJSON(c))
+		}
+		if p.Compete != 0 {
+			c := cfg
+			c.Replicas = append([]Policy(nil), cfg.Replicas...)
+			q := p
+			q.Compete = 0
 			c.Replicas[i] = q
 			out = append(out, sim.MustJSON(c))
 		}
